@@ -30,7 +30,8 @@ impl<T> Pool<T> {
     fn alloc(&mut self, v: T) -> u8 {
         let s = self.used;
         assert!(s < POOL, "verif_shim pool exhausted");
-        self.slots[s] = Some(v);
+        // no drop of whatever an earlier (reset) message left in the slot
+        unsafe { core::ptr::write(&mut self.slots[s], Some(v)) };
         self.used += 1;
         s as u8
     }
